@@ -223,7 +223,7 @@ func checkBinding(w *World, events []*Event, o BindingOpts) []string {
 	var out []string
 	for _, ev := range events {
 		for _, a := range ev.Args {
-			if a.ID <= 0 {
+			if a.ID < 0 || (a.ID == 0 && w.Origin(0) == nil) {
 				out = append(out, fmt.Sprintf("f%d exec %d param %v: fabricated/missing value (id=%d)", ev.Func, ev.Exec, a.Param, a.ID))
 				continue
 			}
